@@ -26,6 +26,10 @@ type ShutdownParams struct {
 	Membership string `json:"membership"`
 	MaxPoint   int    `json:"max_point"`
 	// OldServer: a server below 5.5.0 (streams are closed one at a time, the end is synthesised by the client)
+	// APIInfo: the membership numbering is supplied through the API's membership-info endpoint (which publishes it
+	// on the bus) one second after start-up: the client is ready long before the membership's own start-up delay
+	// has passed
+	APIInfo   bool `json:"api_info"`
 	OldServer bool `json:"old_server"`
 }
 
@@ -70,6 +74,7 @@ func init() {
 			add(ShutdownParams{Case: "absorbed", Checkpoint: "auto", Membership: "static", MaxPoint: 2}, 1)
 			add(ShutdownParams{Case: "earlyclose", Checkpoint: "auto", Membership: "couchbase", MaxPoint: 4}, 1)
 			add(ShutdownParams{Case: "earlyclose", Checkpoint: "auto", Mitigation: true, Health: true, Membership: "static", MaxPoint: 4}, 1)
+			add(ShutdownParams{Case: "earlyclose", Checkpoint: "auto", Membership: "couchbase", APIInfo: true, MaxPoint: 4}, 1)
 			add(ShutdownParams{Case: "slowmitigationstart", Checkpoint: "auto", Mitigation: true, Membership: "static", MaxPoint: 8}, 1)
 			add(ShutdownParams{Case: "slowfailsave", Checkpoint: "auto", Membership: "static", MaxPoint: 6}, 1)
 			add(ShutdownParams{Case: "afterrebalance", Checkpoint: "auto", Membership: "static", MaxPoint: 1}, 1)
@@ -246,9 +251,12 @@ func shutdownMain(p ShutdownParams) {
 			vrt.Failf("event vb%d seq %d was handed to the consumer after Close() had returned", d.Vb, d.Seq)
 		}
 	}
-	if p.Membership == "dynamic" {
+	if p.Membership == "dynamic" || p.APIInfo {
 		vrt.GoNamed("first-membership", func() {
 			vrt.Sleep(1)
+			if p.APIInfo {
+				vrt.Sleep(time.Second) // (the membership has registered and subscribed by then)
+			}
 			e.bus().Publish(helpers.MembershipChangedBusEventName, &membership.Model{MemberNumber: 1, TotalMembers: 1})
 		})
 	}
